@@ -30,6 +30,34 @@ def is_concrete(v):
     return not isinstance(v, Top)
 
 
+class _WithBody(ast.stmt):
+    """marker statement: 'run the body of that with-statement here' (inlined @contextmanager generator)"""
+    _fields = ()
+
+
+def _shallow_copy_path(stmt, target, replacement):
+    """copy of `stmt` in which the descendant statement `target` is replaced; only the nodes on the path are copied"""
+    if stmt is target:
+        return replacement
+    import copy as _copy
+    new = _copy.copy(stmt)
+    for field in ("body", "orelse", "finalbody"):
+        lst = getattr(stmt, field, None)
+        if isinstance(lst, list) and any(any(x is target for x in ast.walk(c)) for c in lst):
+            setattr(new, field, [_shallow_copy_path(c, target, replacement) if any(x is target for x in ast.walk(c)) else c for c in lst])
+    if isinstance(stmt, ast.Try):
+        hs = []
+        for h in stmt.handlers:
+            if any(x is target for x in ast.walk(h)):
+                h2 = _copy.copy(h)
+                h2.body = [_shallow_copy_path(c, target, replacement) if any(x is target for x in ast.walk(c)) else c for c in h.body]
+                hs.append(h2)
+            else:
+                hs.append(h)
+        new.handlers = hs
+    return new
+
+
 class Interp(object):
     def __init__(self, index, stubs=None, opaque=None, on_event=None, name="explore", on_return=None,
                  attr_stubs=None):
@@ -186,9 +214,9 @@ class Interp(object):
     # ------------------------------------------------------------------
     # function calls
     # ------------------------------------------------------------------
-    def call_function(self, st, func, args, kwargs, node=None, self_val=None):
+    def call_function(self, st, func, args, kwargs, node=None, self_val=None, _body=None):
         """Inline an in-repo function.  -> outcomes ('val'|'raise')."""
-        stub = self.find_stub(func)
+        stub = self.find_stub(func) if _body is None else None
         if stub is not None:
             return stub(self, st, ([self_val] if self_val is not None else []) + list(args), kwargs, node)
         if self.depth >= MAX_DEPTH:
@@ -199,6 +227,8 @@ class Interp(object):
         is_gen = getattr(fnode, "_is_gen", None)
         if is_gen is None:
             is_gen = fnode._is_gen = any(isinstance(n, (ast.Yield, ast.YieldFrom)) for n in ast.walk(fnode))
+        if _body is not None:
+            is_gen = False
         if is_gen and not getattr(self, "eager_generators", False):
             raise Unsupported("generator function %s (needs a stub)" % func.fullname)
         frame = {}
@@ -238,7 +268,7 @@ class Interp(object):
         self.cur_func = func
         self.depth += 1
         try:
-            outs = self.exec_block(st, fnode.body)
+            outs = self.exec_block(st, fnode.body if _body is None else _body)
         finally:
             self.depth -= 1
             self.cur_func = saved[0]
@@ -689,10 +719,111 @@ class Interp(object):
         exc.ref = ref
         return ref
 
+    def _inrepo_contextmanager(self, expr):
+        """with <call of an in-repo @contextmanager generator function with one statement-level yield> -> (FuncInfo, yield stmt)"""
+        if not isinstance(expr, ast.Call) or self.cur_func is None:
+            return None
+        r = self.ix.resolve_expr(self.cur_func.module, expr.func)
+        if not isinstance(r, FuncInfo) or self.find_stub(r) is not None:
+            return None
+        if not any(unparse(d).split(".")[-1] == "contextmanager" for d in r.node.decorator_list):
+            return None
+        ys = [n for n in ast.walk(r.node) if isinstance(n, (ast.Yield, ast.YieldFrom))]
+        if len(ys) != 1 or isinstance(ys[0], ast.YieldFrom):
+            return None
+        par = getattr(ys[0], "_parent", None)
+        if not isinstance(par, (ast.Expr, ast.Assign)):
+            return None
+        p = par
+        while p is not None and p is not r.node:
+            if isinstance(p, (ast.For, ast.While, ast.FunctionDef, ast.Lambda)) and p is not r.node:
+                return None
+            p = getattr(p, "_parent", None)
+        return r, par
+
+    def with_inline(self, st, node, item, cmf, ystmt):
+        """The manager's generator body with its yield replaced by the with-body (run in the caller's frame)."""
+        key = id(node)
+        cache = self.__dict__.setdefault("_with_cache", {})
+        if key not in cache:
+            marker = _WithBody()
+            marker.with_node = node
+            marker.value = ystmt.value.value if isinstance(ystmt, ast.Expr) else ystmt.value.value
+            marker.caller = self.cur_func
+            ast.copy_location(marker, ystmt)
+
+            class Sub(ast.NodeTransformer):
+                def visit_Expr(self_, n):
+                    return marker if n is ystmt else self_.generic_visit(n)
+
+                def visit_Assign(self_, n):
+                    return marker if n is ystmt else self_.generic_visit(n)
+            import copy as _copy
+            body = []
+            for stmt in cmf.node.body:
+                if any(x is ystmt for x in ast.walk(stmt)):
+                    stmt = _shallow_copy_path(stmt, ystmt, marker)
+                body.append(stmt)
+            cache[key] = body
+        body = cache[key]
+        call = item.context_expr
+        res = []
+        for (s, k, args) in self.eval_list(st, call.args):
+            if k != "val":
+                res.append((s, k, args))
+                continue
+            for (s2, k2, kwv) in self.eval_list(s, [kw.value for kw in call.keywords]):
+                if k2 != "val":
+                    res.append((s2, k2, kwv))
+                    continue
+                kwargs = {kw.arg: v for kw, v in zip(call.keywords, kwv) if kw.arg is not None}
+                for (s3, k3, v3) in self.call_function(s2, cmf, list(args), kwargs, node, _body=body):
+                    if k3 == "val" and isinstance(v3, tuple) and len(v3) == 3 and v3[0] == "@with-ctl":
+                        res.append((s3, v3[1], v3[2]))
+                    elif k3 == "val":
+                        res.append((s3, "next", None))
+                    else:
+                        res.append((s3, k3, v3))
+        return res
+
+    def s__WithBody(self, st, marker):
+        node = marker.with_node
+        item = node.items[0]
+        res = []
+        vals = [(st, "val", None)] if marker.value is None else self.eval(st, marker.value)
+        for (s, k, v) in vals:
+            if k != "val":
+                res.append((s, k, v))
+                continue
+            callee_frame = s.frames.pop()
+            saved = self.cur_func
+            self.cur_func = marker.caller
+            try:
+                if item.optional_vars is not None:
+                    starts = [s2 for (s2, k2, _) in self.assign(s, item.optional_vars, v) if k2 == "next"]
+                else:
+                    starts = [s]
+                outs = []
+                for s2 in starts:
+                    outs.extend(self.exec_block(s2, node.body))
+            finally:
+                self.cur_func = saved
+            for (s3, k3, v3) in outs:
+                s3.frames.append(dict(callee_frame))
+                if k3 in ("return", "break", "continue"):
+                    # leaves the with-statement: runs the manager's finally blocks on its way out
+                    res.append((s3, "return", ("@with-ctl", k3, v3)))
+                else:
+                    res.append((s3, k3, v3))
+        return res
+
     def s_With(self, st, node):
         if len(node.items) != 1:
             raise Unsupported("multi-item with at %s" % self.loc(node))
         item = node.items[0]
+        inl = self._inrepo_contextmanager(item.context_expr)
+        if inl is not None:
+            return self.with_inline(st, node, item, inl[0], inl[1])
         res = []
         for (s, k, cm) in self.eval(st, item.context_expr):
             if k != "val":
